@@ -251,6 +251,8 @@ func runC07(c *Ctx) {
 	// ---- R07.8
 	c.rule("R07.8", "the caller's channel is closed only when the subscription context is done or when the buffer is empty")
 	c.closeWhenDrained("R07.8")
+	c.rule("R07.9", "every streamed value is decoded into memory allocated for that value (no recycled targets shared between values or subscriptions)")
+	c.freshStreamValue("R07.9")
 }
 
 // decouplingRule: R07.4
